@@ -173,6 +173,14 @@ class Sim:
             return base[self.ev(e.slice)]
         if isinstance(e, ast.Call):
             fn = norm(e.func)
+            if fn == "isinstance" and len(e.args) == 2:
+                v = self.ev(e.args[0])
+                names = [norm(x) for x in (e.args[1].elts if isinstance(e.args[1], ast.Tuple) else [e.args[1]])]
+                if isinstance(v, Obj):
+                    return getattr(v, "_cls", None) in names
+                if v is None:
+                    return False
+                raise Unsupported(f"isinstance of {type(v).__name__}")
             if fn == "reversed":
                 return list(reversed(self.ev(e.args[0])))
             if fn == "len":
